@@ -21,7 +21,7 @@ RULE = ("Exhaustive: every coalition id for n=1..N (players, len, from_players r
         "exclude_coalition, grand_coalition. Predicates: every integer game on the lattice {-L..L}^7 for n=3, every 0/1-valued 4-player game with zero singletons "
         "(2^11; {-1,0,1}^11 in thorough) and Hypothesis games for n=4,5 (incl. games built so that exactly ONE split inequality is violated): is_superadditive, is_monotone_decreasing, is_sam, "
         "check_supermodularity(...) is None must equal textbook definitions in exact arithmetic; tolerance clause (violation by "
-        "relative 1e-12 accepted, 1e-6 rejected). Non-trivial for predicates: decided by a single inequality; coalition cases are "
+        "relative 1e-12 accepted, 1e-6 rejected - relative to v(U) as documented, also in mixed-sign games where two summands of size 2^20..2^40 cancel to a small v(U)). Non-trivial for predicates: decided by a single inequality; coalition cases are "
         "distinct by construction (one case per coalition / per pair block).")
 LEVEL_TEXT = ("The coalition algebra is finite for each n and is enumerated completely for the listed n (exhaustive: true for those "
               "sub-claims in the thorough tier); predicates are decided on a complete small lattice of games and explored on generated "
@@ -407,10 +407,21 @@ def _check_tolerance(case: dict) -> Result:
     n, v, s, rel = case["n"], list(case["v"]), case["s"], case["rel"]
     # tight inequality at s: v(s) equals its best split; lower v(s) by rel * |v(s)|
     best = max(v[a] + v[s ^ a] for a in range(1, s) if a & s == a)
-    if best == 0 or popcount(s) < 2:
+    if popcount(s) < 2 or (best == 0 and not case.get("cancel")):
         res.label("tolerance-skip")
         return res
-    v[s] = best - abs(best) * rel
+    if best == 0:
+        # v(U) ~ 0 reached by cancellation of large summands: the documented tolerance (relative to v(U), atol 0) gives no slack;
+        # only gross violations (>= 1e-6 absolute, in a game whose values are integers) are asserted
+        if rel < 1e-6:
+            res.label("tolerance-skip")
+            return res
+        v[s] = -rel
+    else:
+        v[s] = best - abs(best) * rel
+    if case.get("cancel"):
+        kappa = max((abs(v[a]) + abs(v[s ^ a])) / max(abs(best), rel) for a in range(1, s) if a & s == a and v[a] + v[s ^ a] == best)
+        res.label(f"tolerance cancel kappa>=1e{len(str(int(kappa))) - 1}")
     # keep the rest superadditive: raise supersets not needed - only this pair may be violated; others involving s as a part get easier
     got = bool(is_superadditive(repo.full_game(n, v)))
     others_ok = all((a | b) == s for a, b in sa_violations(v, n, abs(best) * 1e-15))
@@ -469,10 +480,23 @@ def pred_games(draw, n: int):
 
 @st.composite
 def tol_cases(draw, n: int):
-    from ..games import superadditive_games
-    g = draw(superadditive_games(n, n, classes=("float",)))
+    from ..games import build_superadditive, superadditive_games
     size = 1 << n
     cands = [s for s in range(size) if popcount(s) >= 2]
+    if draw(st.booleans()):
+        # mixed-sign game: two players with large values of opposite sign that cancel in every coalition holding both, the rest
+        # small integers (all arithmetic exact).  The documented slack is relative to v(U), not to the summands.
+        i, j = draw(st.permutations(range(n)))[:2]
+        big = 2 ** draw(st.sampled_from([20, 24, 30, 40]))
+        singles = draw(st.lists(st.integers(-3, 3), min_size=n, max_size=n))
+        singles[i], singles[j] = big, -big + draw(st.integers(-3, 3))
+        sur = draw(st.lists(st.integers(0, 2), min_size=size, max_size=size))
+        v = [float(x) for x in build_superadditive(n, singles, sur)]
+        both = [s for s in cands if s >> i & 1 and s >> j & 1]
+        s = draw(st.sampled_from([(1 << i) | (1 << j)] * 3 + both))
+        return {"kind": "tolerance", "n": n, "v": v, "s": s, "cancel": True,
+                "rel": draw(st.sampled_from([1e-13, 1e-6, 1e-5, 1e-4, 1e-3]))}
+    g = draw(superadditive_games(n, n, classes=("float",)))
     return {"kind": "tolerance", "n": n, "v": g["v"], "s": draw(st.sampled_from(cands)),
             "rel": draw(st.sampled_from([1e-13, 1e-12, 1e-6, 1e-5, 1e-3]))}
 
